@@ -101,6 +101,10 @@ class Pb(Harness):
             S = [s for s in S if (s["lin"] or s["nl"]) and s["fam"] != "F"]
         if prop == "C06":
             S = [s for s in S if (s["nl"] or s["fam"] == "B") and s["fam"] != "F"]
+        if prop == "C01":
+            # the two-variable shapes with constraints are about C02/C17; one of them is enough here
+            keep2 = [s_ for s_ in S if s_["n"] == 2 and s_["fam"] == "A"][:1]
+            S = [s_ for s_ in S if not (s_["n"] == 2 and s_["fam"] == "A")] + keep2
         if prop == "C02":
             S = [s for s in S if s["fam"] != "F"]
         return S
